@@ -269,8 +269,8 @@ type graphCase struct {
 	// GenCyclic: is there a cycle in what the injector's wire.Build lists (differs from Cyclic
 	// only when the injector lists a part of the sources)
 	GenCyclic bool
-	Family string
-	Unref  bool
+	Family    string
+	Unref     bool
 }
 
 // allDigraphs enumerates every labelled digraph with self-loops on n nodes (all-function edges).
